@@ -90,6 +90,11 @@ CHECKS = {
         technique='runtime monitoring with fault injection: real as_completed / WorkerPool.run / sharded_pipelines_as_iterator over real PrefetchedCourierServer workers on the simulated transport with a dilated clock; a fault plan assigns lost request / lost reply / slow-beyond-deadline / death before / death after / application error to the i-th data-plane call of each worker (all single faults on the first 4 calls of every faultable worker for W<=3 enumerated, pairs sampled); oracle over client-side delivery log vs fault-free reference: exactly-once task results, output batches at least once, exactly one final aggregate equal to the in-process one, application errors surface, workers released',
         text='About 1k fault plans per quick run, 20k thorough, each executed against the real retry/heartbeat logic.',
         note='Trusted: transport stand-in and time dilation (S=60). One worker is never faulted. Known finding recorded: a next-batch handler that runs after its deadline can steal a batch from a re-initialised generator.'),
+    'C20': dict(
+        category='exploration', design_ref='DESIGN.md §3.2, §3.5, §4 C20', engine='E2-deterministic-scheduler',
+        technique='runtime monitoring in four modes: (registry) fresh WorkerRegistry with a recording dict logging every mutation from inside its critical section, driven by controlled threads under the deterministic scheduler, offline checker for dead-stays-dead / monotone heartbeats / linearizable get; (liveness) CourierClient with stub futures and a settable clock, is_alive compared with a 10-line reference model over random histories with late completions; (ownership) pools sharing workers under the scheduler with pre-emption between check and act, belief-based single-owner log; (poolops) pool operations over the simulated transport must leave no worker acquired',
+        text='3k registry schedules, 15k liveness queries, 6k ownership schedules and 48 pool operations per quick run; x30 thorough.',
+        note='Trusted: scheduler shim, stub transport futures, fake clock.'),
 }
 
 NOT_APPLICABLE = {}
